@@ -25,6 +25,7 @@ def local_overlap_probe(ctx, rep):
         pa, pb = ctx.rng.randbytes(200), ctx.rng.randbytes(200)
         first_piece_written = threading.Event()
         b_done = threading.Event()
+        observed = []
         orig_copy = L.shutil.copyfileobj
 
         def stepping_copy(src, dst, length=0):
@@ -37,6 +38,12 @@ def local_overlap_probe(ctx, rep):
                 b_done.wait(10)
             dst.write(src.read())
             dst.flush()
+            if who == 'uploader-A' and not observed:
+                # what a reader (or a process killed right now) finds under the object's name at this instant
+                try:
+                    observed.append(b.download(name))
+                except Exception:
+                    observed.append(None)
 
         def up(payload):
             b.upload_stream(name, io.BytesIO(payload), len(payload), 100)
@@ -54,6 +61,11 @@ def local_overlap_probe(ctx, rep):
         finally:
             L.shutil.copyfileobj = orig_copy
         rep.case(('local-overlap', trial), nontrivial=True)
+        if observed and observed[0] is not None and observed[0] not in (pa, pb):
+            rep.violations.append({'what': f'while two uploads of one chunk name overlap, the object visible under that name ({len(observed[0])} bytes) is neither upload '
+                                           '(the writers share a temporary): a reader, or a process killed at that instant, is left with a mixture',
+                                   'signature': {'kind': 'chunk_mixed_by_overlapping_uploads'}, 'replay': {'probe': 'local_overlap'}})
+            break
         stored = b.download(name)
         if stored not in (pa, pb):
             rep.violations.append({'what': f'two overlapping uploads of one chunk name left a stored object ({len(stored)} bytes) that is neither upload '
@@ -141,6 +153,7 @@ def _run(ctx, n, nops, rep):
                          ('restore_mismatch', 'referenced_chunk_missing', 'gc_overreach', 'exception', 'unknown_object', 'failed_gc_mutated', 'chunk_mixed_by_overlapping_uploads')]
     # the same property through the tool as a user runs it: fresh `python -m replicat` processes, a repository on disk, real faults
     cli_hist.run_scenarios(ctx, rep, {'plain': ctx.scale(3, 30), 'oserror': ctx.scale(4, 40)}, CLI_MINE)
+    cli_hist.refused_removal_probe(ctx, rep, CLI_MINE)
     # and over the remote adapters (B2 by bucket name and by bucket id, S3-compatible) against in-memory fake services
     remote_hist.remote_probe(ctx, rep, ('exception', 'restore_mismatch', 'referenced_chunk_missing'))
 
